@@ -32,9 +32,12 @@ LEVEL_TEXT = ("Proof over the reals: for every rate array whose active bins have
               "holds, get the same observed entry, simulated catalogs, entries and quantile, for every RealOps instance; a further "
               "event in an occupied bin is invisible; rejections of the gridding call characterised; (iv) num_simulations as an "
               "argument of its own (first num_simulations rows read, exactly that many entries).")
-LEVEL_NOTE = ("Floating-point rounding of exp/log/poisson.cdf is not modelled; comparison to 1e-9 relative plus the rounding "
-              "of 1-exp(-rate) itself (2^-51/(1-exp(-rate)) per active bin: the code's subtraction loses up to 8 digits at "
-              "rate 1e-9). scipy.stats.poisson.cdf(0, rate) is modelled as exp(-rate). Placement of simulated events is C06.")
+LEVEL_NOTE = ("Floating-point rounding of exp/log/poisson.cdf is not modelled as arithmetic; comparison to 1e-9 relative plus the "
+              "rounding of 1-exp(-rate) itself: 2^-51/(1-exp(-rate)) per active bin - PROVED to bound the cancellation "
+              "(log_one_sub_exp_cancellation: exp within one ulp, one rounded subtraction, p >= 2^-49; the code's subtraction loses up "
+              "to 8 digits at rate 1e-9), deviations add up over the bins (sum_terms_close). A catalog carrying a region DIFFERENT "
+              "from the forecast's is a caller configuration outside the property (the documented workflow binds the forecast's "
+              "region): those calls are generated but not judged (AWAITING_DECISION names kept as documentation). scipy.stats.poisson.cdf(0, rate) is modelled as exp(-rate). Placement of simulated events is C06.")
 DESIGN_REF = "DESIGN.md §4 C16"
 TECHNIQUE = "Lean 4 theorems over Mathlib reals (generic RealOps model) + differential testing of the Float instance + definition oracle"
 
@@ -57,7 +60,9 @@ THEOREMS = ["BinaryBrier.binaryLL_eq_def", "BinaryBrier.binaryLL_eq_binaryDef", 
             "BinaryBrier.public_activity_only", "BinaryBrier.public_spatial_activity_only",
             "BinaryBrier.duplicate_event_invisible", "BinaryBrier.public_entries_eq_def", "BinaryBrier.public_rejects_iff",
             "BinaryBrier.pipeline_entry_count", "BinaryBrier.publicN_reads_first_rows", "BinaryBrier.publicN_too_few_rows",
-            "BinaryBrier.region_binding", "BinaryBrier.magnitude_less_region_is_replaced"]
+            "BinaryBrier.region_binding", "BinaryBrier.magnitude_less_region_is_replaced",
+            # round 6 (Properties/C16_Cancellation.lean): the cancellation bound of log(1 - exp(-rate))
+            "BinaryBrier.log_one_sub_exp_cancellation", "BinaryBrier.sum_terms_close"]
 TRUSTED = ["Lean 4.33 kernel", "axioms: propext, Classical.choice, Quot.sound at most",
            "Real.log / Real.exp stand for numpy.log / numpy.exp; scipy.stats.poisson.cdf(0, r) = exp(-r); rounding not "
            "modelled, Float instance compared numerically on every run",
@@ -103,7 +108,10 @@ RULE = ("array level: 1-D (1..200 bins) and 2-D ((1..40)x(1..8)) rate arrays, ra
         "the supplied edges bit for bit); observed catalogs in every region state: none, the forecast's object, an equal copy, "
         "magnitude-less with the same cells, with the cells in another order, with more cells than the forecast, a space-magnitude "
         "region with other magnitude edges - the forecast's region decides; after a CL / Brier test the bound region must BIN like "
-        "the forecast's (same cells, order, edges); calls on which unchanged pyCSEP itself departs are named in AWAITING_DECISION.")
+        "the forecast's (same cells, order, edges); calls on which unchanged pyCSEP itself departs are named in AWAITING_DECISION. "
+        "Round 6 (owners): public arguments positional / keyword / all keyword, a seed next to injected numbers, UCERF3Catalog as "
+        "observed catalog (12%), zero rates written -0.0, the public kernel called by keyword, the caller's arrays (constructor array, "
+        "event array, injected numbers, array-level rates and counts) byte-identical after every call.")
 
 # the exact-rational (Soft64) sampling weights of the pipeline model cost ~0.15 ms per bin: arrays beyond this size are
 # scored through the Float ops (c16_bll / c16_brier / c16_mode) with the simulated catalogs placed by the harness
@@ -443,15 +451,25 @@ def _array_case(run, drv, pending, spec, tag="array"):
     run.count(f"count-layout-{cl}")
     if len(shape) == 2 and rates.flags.c_contiguous != counts.flags.c_contiguous:
         run.count("layouts-differ")
+    from . import c05 as _c05m
+    owned = _c05m._Owned(rates=rates, counts=counts, counts2=counts2)       # round 6: the caller's arrays stay what they were
     try:
         with numpy.errstate(all="ignore"):
             # the arrays are handed over as they are (no copy: a copy would normalise the layout under test)
-            bll = float(binary_joint_log_likelihood_ndarray(rates, counts)) if have_b else None
+            # (round 6: the public kernel is called positionally or by keyword)
+            if have_b and spec.get("rn_seed", 0) % 3 == 1:
+                bll = float(binary_joint_log_likelihood_ndarray(forecast=rates, catalog=counts))
+            else:
+                bll = float(binary_joint_log_likelihood_ndarray(rates, counts)) if have_b else None
             bll2 = float(binary_joint_log_likelihood_ndarray(rates, counts2)) if have_b else None
             bri = float(_brier_score_ndarray(rates, counts)) if have_r else None
             bri2 = float(_brier_score_ndarray(rates, counts2)) if have_r else None
     except Exception as e:
         run.oracle_failure(case, f"array-level call raised {type(e).__name__}: {e}")
+        return
+    ch = owned.changed()
+    if ch:
+        run.oracle_failure(case, f"an array-level score changed the caller's own array(s) {ch} in place")
         return
     idx, vals_, tols_ = [], [], []
     if have_b:
@@ -491,11 +509,16 @@ def _array_drivers(run, drv, pending, case, spec, rates, counts, vals, fc, rdt):
     for mode, fn in (("CL", _binary_likelihood_test), ("B", _brier_score_test)):
         rn_all = g.random((nsim + (spec["rn_seed"] // 11) % 3, n_active))         # 0-2 rows more than simulations asked
         rn = rn_all[:nsim]
+        from . import c05 as _c05m
+        owned = _c05m._Owned(rates=rates, counts=counts, random_numbers=rn_all)
         try:
-            with numpy.errstate(all="ignore"):
+            with numpy.errstate(all="ignore"), _c05m._capped_uniforms(2000):
                 qs, obs, td = fn(rates, counts, num_simulations=nsim, random_numbers=rn_all, verbose=False)
         except Exception as e:
             run.oracle_failure(case, f"{fn.__name__} raised {type(e).__name__}: {e}")
+            continue
+        if owned.changed():
+            run.oracle_failure(case, f"{fn.__name__} changed the caller's own array(s) {owned.changed()} in place")
             continue
         run.count(f"call-{fn.__name__}")
         _score_entries(run, drv, pending, case, mode, fn.__name__, vals.reshape(shape if len(shape) == 2 else (-1, 1)),
@@ -629,6 +652,14 @@ def _gen_test_spec(rng, tier):
         if rdt != "f8":
             # whole-number / float32 rates are held as they are (data/c would leave the dtype's value set)
             spec["fscale"] = None
+    # round 6 (owners): how the arguments are passed (positional / keyword), which public catalog class carries the events, a zero
+    # rate written -0.0
+    from . import c05 as _c05m
+    spec["conv"] = rng.choice(_c05m.CALL_CONVENTIONS)
+    spec["cat_class"] = "ucerf3" if rng.random() < 0.12 and "events_bulk" not in spec else "csep"
+    if rdt == "f8" and rng.random() < 0.15:
+        spec["data"] = [["-0x0.0p+0" if float.fromhex(x) == 0.0 and (k + j) % 2 == 0 else x for j, x in enumerate(row)]
+                        for k, row in enumerate(spec["data"])]
     if rdt == "f8" and rng.random() < 0.35:
         # round 4 (owners): every kind of factor scale() documents - python / numpy scalars, 0-d and (1,1) arrays, per-cell
         # (n,1), per-magnitude (m,) / (1,m), per-bin (n,m) arrays, scale_to_test_date - with 0-2 earlier factors set before
@@ -652,6 +683,9 @@ def _bound_to(cat, fore):
             float(reg.dh) == float(fore.region.dh)
     except Exception:
         return False
+
+
+_GIVEN = {}           # the very array object handed to the forecast's constructor by the last `_build`
 
 
 class _DataMismatch(Exception):
@@ -680,6 +714,7 @@ def _build(spec):
         w0 = 1.0 if fa["last"][0] == "date" else _c05._factor(fa["last"], ns, nm)
         held = _layout(numpy.asarray(data / w0, dtype=float), rl, 3.0)
         fore = GriddedForecast(data=held, region=region, magnitudes=mags, name="forecast")
+        _GIVEN["array"] = held
         for fk in fa.get("pre", []):
             fore.scale(_c05._factor(fk, ns, nm))
         data = _c05._apply_factor(fore, numpy.array(held, dtype=float), fa["last"])
@@ -687,8 +722,8 @@ def _build(spec):
             raise _DataMismatch("forecast.data is not the stored rates times the factor set last (elementwise)")
     elif c:
         # the forecast holds data/c and is scaled by c (GriddedDataSet.scale): the rates under test are `fore.data`
-        fore = GriddedForecast(data=_layout((data / c).astype(_NP[rdt]), rl, 3.0), region=region, magnitudes=mags,
-                               name="forecast").scale(c)
+        _GIVEN["array"] = _layout((data / c).astype(_NP[rdt]), rl, 3.0)
+        fore = GriddedForecast(data=_GIVEN["array"], region=region, magnitudes=mags, name="forecast").scale(c)
         data = numpy.array(fore.data, dtype=float)
     else:
         # the same numbers in the representation (dtype, memory layout) the spec names
@@ -696,6 +731,7 @@ def _build(spec):
         if not numpy.array_equal(held, data):
             raise AssertionError("harness: the representation changed the values")
         fore = GriddedForecast(data=held, region=region, magnitudes=mags, name="forecast")
+        _GIVEN["array"] = held
     cnt = numpy.zeros((ns, nm), dtype=int)
     ev = []
     for k, (i, j, fx, fy, fm) in enumerate(spec["events"]):
@@ -721,7 +757,11 @@ def _build(spec):
     else:
         cat_region = dict(same=fore.region, equal=CartesianGrid2D.from_origins(origins, dh=dh, magnitudes=mags), none=None,
                           nomag=CartesianGrid2D.from_origins(origins, dh=dh))[cr]
-    cat = CSEPCatalog(data=ev, region=cat_region, name="catalog")
+    if spec.get("cat_class") == "ucerf3":
+        from . import c05 as _c05
+        cat = _c05._ucerf3_catalog(ev, cat_region)          # another public catalog class carrying the same events (round 6)
+    else:
+        cat = CSEPCatalog(data=ev, region=cat_region, name="catalog")
     return fore, cat, data, cnt
 
 
@@ -816,7 +856,9 @@ def _wrong_width(run, drv, pending, case, mode, fn, args, n_active, nsim, g, rat
     rn = g.random((max(nsim, 1), w))
     try:
         with numpy.errstate(all="ignore"):
-            fn(*args, num_simulations=max(nsim, 1), random_numbers=rn)
+            from . import c05 as _c05w
+            with _c05w._capped_uniforms(2000):
+                fn(*args, num_simulations=max(nsim, 1), random_numbers=rn)
         got = "returned"
     except Exception:                # which exception is not part of any statement: AssertionError today
         got = "exception"
@@ -860,6 +902,11 @@ def _test_case(run, drv, pending, spec, tag="test"):
     run.count(f"forecast-dtype-{rdt}")
     run.count(f"forecast-layout-{rl}")
     modes = [("S", be.binary_spatial_test), ("CL", be.binary_conditional_likelihood_test), ("B", br.brier_score_test)]
+    from . import c05 as _c05m
+    conv = spec.get("conv", "kw")
+    shared_rn, repeated = {}, []
+    run.count(f"call-convention-{conv}")
+    run.count(f"catalog-class-{spec.get('cat_class', 'csep')}")
     # the catalog as the list of its events' (cell, magnitude bin) lookups, for the catalog-level model (c16_public)
     nev = len(spec["events"]) + sum(c for _, _, c in spec.get("events_bulk", []))
     evtxt = None
@@ -897,22 +944,56 @@ def _test_case(run, drv, pending, spec, tag="test"):
         surplus = (1 + spec["rn_seed"] % 2) if (spec["rn_seed"] // 5) % 8 == 0 else 0
         long_run = spec["rn_seed"] % 97 == 0 and ns * nm <= 400
         nsim_call = (100 + spec["rn_seed"] % 31) if long_run else nsim
-        rn_all = g.random((nsim_call + surplus, n_active))
+        # round 6: ONE random_numbers array object for the tests that take the same number of numbers (CL and Brier always; the S-test
+        # when it has as many active cells): what a test does to / remembers of its numbers shows in the next one
+        if shared_rn.get("a") is not None and shared_rn["a"].shape == (nsim_call + surplus, n_active):
+            rn_all = shared_rn["a"]
+            run.count("random-numbers-array-reused")
+        else:
+            rn_all = g.random((nsim_call + surplus, n_active))
+            shared_rn["a"] = rn_all
         rn = rn_all[:nsim_call]
+        owned = _c05m._Owned(random_numbers=rn_all, events=getattr(cat, "catalog", None), given=_GIVEN.get("array"))
         try:
-            with numpy.errstate(all="ignore"):
+            # with injected numbers the tests draw nothing from the global generator: a call that starts drawing is stopped
+            with numpy.errstate(all="ignore"), _c05m._capped_uniforms(2000):
                 if long_run:
                     import contextlib
                     import io
                     with contextlib.redirect_stdout(io.StringIO()):
-                        res = fn(fore, cat, num_simulations=nsim_call, random_numbers=rn_all, verbose=True)
+                        res = _c05m._public_call(fn, conv, fore, cat, nsim_call, random_numbers=rn_all, verbose=True)
                     run.count("long-verbose-run")
                 else:
-                    res = fn(fore, cat, num_simulations=nsim_call, random_numbers=rn_all)
+                    sd_ = 12345 if (spec["rn_seed"] // 11) % 4 == 0 else None          # a seed next to injected numbers: no effect
+                    res = _c05m._public_call(fn, conv, fore, cat, nsim_call, seed=sd_, random_numbers=rn_all)
         except Exception as e:
             run.oracle_failure(case, f"{fn.__name__} raised {type(e).__name__}: {e}")
             continue
         run.count(f"call-{fn.__name__}")
+        ch = owned.changed()
+        if ch:
+            run.oracle_failure(case, f"{fn.__name__} changed the caller's own array(s) {ch} in place")
+            return
+        if not repeated and not long_run:
+            # round 6: aliasing of RETURNED objects - overwrite in place what this call and the public getters handed out, repeat
+            # the very same call: same values
+            repeated.append(mode)
+            o1, t1_ = float(res.observed_statistic), [float(x) for x in res.test_distribution]
+            _c05m._scribble(res, fore, cat)
+            try:
+                with numpy.errstate(all="ignore"), _c05m._capped_uniforms(2000):
+                    res2 = _c05m._public_call(fn, conv, fore, cat, nsim_call, random_numbers=rn_all)
+                o2, t2_ = float(res2.observed_statistic), [float(x) for x in res2.test_distribution]
+                if not ((o1 == o2 or (math.isnan(o1) and math.isnan(o2))) and len(t1_) == len(t2_) and
+                        all(a == b or (math.isnan(a) and math.isnan(b)) for a, b in zip(t1_, t2_))):
+                    run.oracle_failure(case, f"{fn.__name__} repeated after the objects it and the public getters RETURNED were overwritten "
+                                             f"in place: {o2!r}, {t2_[:3]} instead of {o1!r}, {t1_[:3]}")
+                    return
+                res = res2
+                run.count("repeat-after-overwriting-returned-objects")
+            except Exception as e:
+                run.oracle_failure(case, f"{fn.__name__} repeated after overwriting returned objects raised {type(e).__name__}: {e}")
+                return
         if surplus:
             run.count("injected-rows-exceed-num-simulations")
         rex = None
@@ -1044,6 +1125,22 @@ def _capture_sims(module, rec):
         module._simulate_catalog = orig
 
 
+def _rej_count(rates1d, n_active, nsim, stream):
+    """how many uniform numbers the rejection rule consumes for `nsim` simulations on this stream (len(stream) if it runs out)"""
+    r = numpy.where(numpy.asarray(rates1d, dtype=float) <= 0.0, 0.0, numpy.asarray(rates1d, dtype=float))
+    w = numpy.cumsum(r)
+    w = w / w[-1]
+    pos = 0
+    for _ in range(nsim):
+        seen = set()
+        while len(seen) < n_active:
+            if pos >= len(stream):
+                return len(stream)
+            seen.add(int(numpy.searchsorted(w, stream[pos], side="right")))
+            pos += 1
+    return pos
+
+
 def _rej_sims(rates1d, n_active, nsim, stream):
     """the simulated catalogs of the rejection loop (random_numbers=None) for the given stream of uniform numbers;
     None when the stream runs out"""
@@ -1094,6 +1191,7 @@ def _gen_default_spec(rng, tier):
 def _default_case(run, drv, pending, spec, tag="default"):
     import contextlib
     import io
+    from . import c05 as _c05m
     from csep.core import binomial_evaluations as be
     from csep.core import brier_evaluations as br
     fore, cat, data, cnt = _build(spec["test"])
@@ -1136,7 +1234,12 @@ def _default_case(run, drv, pending, spec, tag="default"):
                 numpy.random.seed(seed)
             rec = []
             try:
-                with numpy.errstate(all="ignore"), contextlib.redirect_stdout(io.StringIO()), _capture_sims(br if mode == "B" else be, rec):
+                # the replay of the rejection rule (`_rej_sims`) says how many uniform numbers the correct loop consumes for this
+                # input: 20x that (+ slack), counted in calls of the generator, is the cap - a loop that cannot terminate (more
+                # active cells asked than there are cells of positive rate: D10's mechanism) raises Runaway within milliseconds
+                need = _rej_count(r1, n_active, nsim, stream)
+                with numpy.errstate(all="ignore"), contextlib.redirect_stdout(io.StringIO()), \
+                        _capture_sims(br if mode == "B" else be, rec), _c05m._capped_uniforms(20 * need + 2000):
                     res = fn(*args, **kw)
             except Exception as e:
                 run.oracle_failure(case, f"{fn.__name__} (random_numbers=None, {kw}) raised {type(e).__name__}: {e}")
@@ -1270,7 +1373,9 @@ def _session_case(run, drv, pending, spec, tag="session"):
             rn = g.random((nsim, n_active))
             try:
                 with numpy.errstate(all="ignore"):
-                    res = fns[mode](fore, cat, num_simulations=nsim, random_numbers=rn)
+                    from . import c05 as _c05s
+                    with _c05s._capped_uniforms(2000):
+                        res = fns[mode](fore, cat, num_simulations=nsim, random_numbers=rn)
                     rex = numpy.asarray(fore.spatial_counts(), dtype=float) if mode == "S" else None
             except Exception as e:
                 run.oracle_failure(case, f"step {k}: {fns[mode].__name__} raised {type(e).__name__}: {e}")
@@ -1461,7 +1566,7 @@ def run(run, rng, tier):
         _KINDS.get(c.get("kind"), _test_case)(run, drv, pending, c["spec"], tag="corpus")
     for spec in _fixed_array_specs():
         _array_case(run, drv, pending, spec, tag="fixed")
-    n_arr, n_test = (5000, 1500) if tier == "quick" else (50000, 15000)
+    n_arr, n_test = (4400, 1400) if tier == "quick" else (50000, 15000)
     _ma_primitives(run, Driver(), rng, 400 if tier == "quick" else 6000)
     # phase 2 classes first (cheap): sizes, default random path, sessions on shared objects
     for _ in range(2 if tier == "quick" else 12):
